@@ -357,6 +357,19 @@ theorem mdSubInt_wf {a : List (Nat × Int)} (ha : MDWF a) (b : List (Nat × Int)
 theorem mdSubInt_get {a b : List (Nat × Int)} (ha : MDWF a) (hb : MDWF b) (i : Nat) :
     mdGet (mdSubInt a b) i = mdGet a i - mdGet b i := mdGet_mdSubInt ha.1 hb.1 i
 
+/-- `usize`: subtraction succeeds iff no exponent underflows (otherwise the overflow check panics); the result
+satisfies the invariant and subtracts exponents -/
+theorem mdSubNat_ok_spec {a b : List (Nat × Nat)} (ha : MDWF a) (hb : MDWF b)
+    (hle : ∀ j, mdGet b j ≤ mdGet a j) :
+    ∃ c, mdSubNat a b = Res.ok c ∧ MDWF c ∧ ∀ j, mdGet c j = mdGet a j - mdGet b j :=
+  mdSubNat_ok ha.1 hb.1 hle
+
+theorem mdSubNat_panic_spec {a b : List (Nat × Nat)} (ha : MDWF a) (hb : MDWF b)
+    (hlt : ∃ j, mdGet a j < mdGet b j) : mdSubNat a b = Res.panic := mdSubNat_panic ha.1 hb.1 hlt
+
+example : mdSubNat [(0, 1), (1, 2), (2, 3)] [(1, 2), (2, 1)] = Res.ok [(0, 1), (2, 2)] := by decide
+example : mdSubNat [(0, 1), (1, 2), (2, 3)] [(1, 3), (2, 1)] = Res.panic := by decide
+
 /-- The operations on polynomials over raw `MultiVar`s whose monomials satisfy the invariant are the images of
 the operations over the commutative monoid `WMVar` of well-formed monomials (to which section 3 applies). -/
 theorem mvar_mulAssign_transport {R : Type} [DecidableEq R] [CommRing R] (a b : List (WMVar I × R)) :
